@@ -472,6 +472,143 @@ def compare(exp, obs, kind):
 
 
 # ----------------------------------------------------------------------------------------------
+# shrinking of a failing case (tree simplifications, shorter path); used for the replay file only
+# ----------------------------------------------------------------------------------------------
+def tree_variants(spec):
+    import copy
+    for n, nd in enumerate(spec['nodes']):
+        for field in ('kids', 'meth', 'vals'):
+            for j in range(len(nd.get(field, []))):
+                new = copy.deepcopy(spec)
+                del new['nodes'][n][field][j]
+                yield new
+        for field in ('disp', 'conf', 'call', 'exp'):
+            if nd.get(field) is not None:
+                new = copy.deepcopy(spec)
+                new['nodes'][n][field] = None
+                yield new
+        if nd.get('falsy'):
+            new = copy.deepcopy(spec)
+            new['nodes'][n]['falsy'] = False
+            yield new
+        for j, (name, m) in enumerate(nd.get('meth', [])):
+            for field in ('alias', 'conf'):
+                if m.get(field):
+                    new = copy.deepcopy(spec)
+                    new['nodes'][n]['meth'][j][1].pop(field)
+                    yield new
+        if isinstance(nd.get('conf'), dict):
+            for k in nd['conf']:
+                new = copy.deepcopy(spec)
+                del new['nodes'][n]['conf'][k]
+                yield new
+
+
+def path_variants(path):
+    segs = path.split('/')
+    for i in range(len(segs)):
+        if segs[i]:
+            p = '/'.join(segs[:i] + segs[i + 1:])
+            yield p if p.startswith('/') else '/' + p
+
+
+def gc_tree(spec):
+    """Drop nodes that are no longer referenced and renumber."""
+    import copy
+    nodes = spec['nodes']
+    reach, todo = [], [0]
+    while todo:
+        i = todo.pop()
+        if i in reach:
+            continue
+        reach.append(i)
+        nd = nodes[i]
+        refs = [j for _, j in nd.get('kids', [])]
+        d = nd.get('disp') or {}
+        if isinstance(d.get('h'), list) and d['h'][1] is not None:
+            refs.append(d['h'][1])
+        if isinstance(d.get('ret'), list) and d['ret'][1] is not None:
+            refs.append(d['ret'][1])
+        todo.extend(refs)
+    reach.sort()
+    idx = {old: new for new, old in enumerate(reach)}
+    out = []
+    for old in reach:
+        nd = copy.deepcopy(nodes[old])
+        nd['kids'] = [[n, idx[j]] for n, j in nd.get('kids', [])]
+        d = nd.get('disp') or {}
+        if isinstance(d.get('h'), list) and d['h'][1] is not None:
+            d['h'][1] = idx[d['h'][1]]
+        if isinstance(d.get('ret'), list) and d['ret'][1] is not None:
+            d['ret'][1] = idx[d['ret'][1]]
+        out.append(nd)
+    return {'nodes': out}
+
+
+def shrink_generic(case, variants, fails, budget=500):
+    improved = True
+    while improved and budget > 0:
+        improved = False
+        for v in variants(case):
+            budget -= 1
+            if budget <= 0:
+                break
+            try:
+                bad = fails(v)
+            except Exception:
+                bad = False
+            if bad:
+                case = v
+                improved = True
+                break
+    return case
+
+
+def shrink_case(case, sig):
+    def variants(c):
+        for p in path_variants(c['path']):
+            yield dict(c, path=p)
+        for t in tree_variants(c['tree']):
+            yield dict(c, tree=t)
+
+    def messages(c):
+        built, view, obs, lines, again = run_tree(c['tree'], c['kind'], [(c['path'], c['method'])], sig == 'not_pure')
+        msgs = oracle(built, c, obs[0]) + expose_oracle(built)
+        if again is not None and strip_obs(again[0]) != strip_obs(obs[0]):
+            msgs.append(('the same request answered differently in a different history', 'not_pure'))
+        return [w for w, s2 in msgs if s2 == sig]
+
+    def fails(c):
+        return bool(messages(c))
+    small = shrink_generic(case, variants, fails)
+    try:
+        g = dict(small, tree=gc_tree(small['tree']))
+        # renumbering changes probe ids; keep it only if the failure is still there
+        if fails(g):
+            small = g
+    except Exception:
+        pass
+    return small, (messages(small) or [None])[0]
+
+
+def report_failure(ctx, case, what, sig, shrinker):
+    """ctx.oracle_fail with the first failure of each signature shrunk (the others are reported as found)."""
+    done = getattr(ctx, '_shrunk_sigs', None)
+    if done is None:
+        done = ctx._shrunk_sigs = set()
+    if sig not in done and ctx.match_known(sig) is None and len(done) < 4:
+        done.add(sig)
+        try:
+            small, what_small = shrinker(case, sig)
+            if small != case and what_small:
+                what = what_small + '  [shrunk]'
+                case = dict(small, shrunk_from=case)
+        except Exception as e:     # shrinking is a convenience, never a reason to fail
+            ctx.note('shrinking failed: %r' % (e,))
+    ctx.oracle_fail(case, what, sig)
+
+
+# ----------------------------------------------------------------------------------------------
 def run_tree(spec, kind, reqs, purity=False):
     """Build the tree, run the requests; returns (built, view, [obs], [line])."""
     built = T.Built(spec)
@@ -507,7 +644,8 @@ def check_batch(ctx, batch, compare_model=True):
         built, view, obs, lines, again = run_tree(spec, kind, reqs, purity)
         ndisp = sum(1 for nd in spec['nodes'] if nd.get('disp') is not None)
         for what, sig in expose_oracle(built):
-            ctx.oracle_fail({'tree': spec, 'kind': kind, 'path': reqs[0][0], 'method': reqs[0][1]}, what, sig)
+            report_failure(ctx, {'tree': spec, 'kind': kind, 'path': reqs[0][0], 'method': reqs[0][1]}, what, sig,
+                           shrink_case)
         if built.exposed_by_decorator:
             ctx.count('expose_decorator_checked', len(built.exposed_by_decorator))
         for k, ((p, m), o) in enumerate(zip(reqs, obs)):
@@ -525,7 +663,7 @@ def check_batch(ctx, batch, compare_model=True):
                                     o['ran'][0][0].split('.', 1)[1] if o['ran'][0][0].split('.', 1)[1] in
                                     ('index', 'default') + tuple(VERBS) else 'method'))
             for what, sig in oracle(built, case, o):
-                ctx.oracle_fail(case, what, sig)
+                report_failure(ctx, case, what, sig, shrink_case)
             if again is not None and strip_obs(again[k]) != strip_obs(o):
                 ctx.oracle_fail(case, 'the same request answered differently in a different history: %s vs %s'
                                 % (strip_obs(o), strip_obs(again[k])), 'not_pure')
